@@ -55,3 +55,30 @@ def pipelines(max_len, seed, sample=None):
         for c in combos:
             out.append(([l for l, _ in c], [dict(cfg) for _, cfg in c]))
     return out
+
+
+def extra_pipelines():
+    """fixed pipelines around parameter sweeps: the sweep publishes <var>_values, a later node consumes them"""
+    from semantiva.registry import ProcessorRegistry
+    ProcessorRegistry.register_modules(["semantiva.examples.test_utils"])
+    src = {"processor": FloatValueDataSource, "parameters": {"value": 3.0}}
+    sweep_op = {"processor": "FloatMultiplyOperation", "derive": {"parameter_sweep": {"parameters": {"factor": "t"}, "variables": {"t": {"values": [1.0, 2.0, 4.0]}},
+                                                                                   "collection": "FloatDataCollection"}}}
+    sweep_probe = {"processor": "FloatCollectValueProbe", "context_key": "readings",
+                   "derive": {"parameter_sweep": {"parameters": {}, "variables": {"step": {"values": [1.0, 2.0, 4.0]}}}}}
+    sweep_src = {"processor": "FloatValueDataSource", "derive": {"parameter_sweep": {"parameters": {"value": "2.0 * t"}, "variables": {"t": {"values": [1.0, 2.0]}},
+                                                                                   "collection": "FloatDataCollection"}}}
+    use_t = {"processor": "template:'t {t_values}':label"}
+    use_step = {"processor": "template:'steps {step_values}':label"}
+    use_readings = {"processor": "rename:readings:kept"}
+    out = [
+        (["src(v)", "sweep-op", "template t_values"], [src, sweep_op, use_t]),
+        (["src(v)", "sweep-probe", "template step_values"], [src, sweep_probe, use_step]),
+        (["src(v)", "sweep-probe", "rename readings"], [src, sweep_probe, use_readings]),
+        (["src(v)", "sweep-probe", "template step_values", "delete step_values"], [src, sweep_probe, use_step, {"processor": "delete:step_values"}]),
+        (["sweep-src", "template t_values"], [sweep_src, use_t]),
+        (["src(v)", "template step_values"], [src, use_step]),
+        (["src(v)", "sweep-probe"], [src, sweep_probe]),
+    ]
+    import copy
+    return [(l, copy.deepcopy(c)) for l, c in out]
